@@ -1568,3 +1568,79 @@ package go9p
 //@   assigns  elems(b)
 //@ iface net.Conn.Close(c) (err)
 //@   assigns  nothing
+
+// ---------------------------------------------------------------------------
+// C04: reference counts behind the fid table. A fid is valid while the table holds a reference to it;
+// every request slot (Fid, Afid, Newfid) holds one more while the request is in flight.
+
+//@ func (*SrvFid).DecRef(fid)
+//@   property C04 C06 C11
+//@   requires fid != nil && !held(fid) && fid.Fconn != nil && !held(fid.Fconn) && fid.Fconn.Srv != nil && fid.refcount > -9223372036854775807
+//@   ghost ndestroy int = 0
+//@   at call(SrvFidOps.FidDestroy) requires [last] arg1 == fid && old(fid.refcount) <= 1 && !inmap(fid.Fconn.fidpool, fid.fid) && ndestroy == 0
+//@   at call(SrvFidOps.FidDestroy) ghost ndestroy := ndestroy + 1
+//@   ensures  [keep] old(fid.refcount) > 1 ==> fid.refcount == old(fid.refcount) - 1 && ndestroy == 0 && (forall k int :: inmap(fid.Fconn.fidpool, k) <==> old(inmap(fid.Fconn.fidpool, k)))
+//@   ensures  [destroy] old(fid.refcount) <= 1 && implements(fid.Fconn.Srv.ops, "SrvFidOps") ==> ndestroy == 1
+//@   assigns  everything
+
+//@ func (*Srv).authPost(srv, req)
+//@   property C04 C06
+//@   requires req != nil && (req.Rc != nil && req.Rc.Type == 103 ==> req.Afid != nil && !held(req.Afid))
+//@   ensures  req.Rc != nil && req.Rc.Type == 103 ==> req.Afid.refcount == wrap64s(old(req.Afid.refcount) + 1)
+//@   ensures  !(req.Rc != nil && req.Rc.Type == 103) && req.Afid != nil ==> req.Afid.refcount == old(req.Afid.refcount)
+//@   assigns  req.Afid.refcount
+
+//@ func (*Srv).attachPost(srv, req)
+//@   property C04 C06
+//@   requires req != nil && (req.Rc != nil && req.Rc.Type == 105 ==> req.Fid != nil && !held(req.Fid))
+//@   ensures  req.Rc != nil && req.Rc.Type == 105 ==> req.Fid.refcount == wrap64s(old(req.Fid.refcount) + 1) && req.Fid.Type == req.Rc.Qid.Type
+//@   ensures  !(req.Rc != nil && req.Rc.Type == 105) && req.Fid != nil ==> req.Fid.refcount == old(req.Fid.refcount) && req.Fid.Type == old(req.Fid.Type)
+//@   assigns  req.Fid.refcount, req.Fid.Type
+
+//@ pure walkdone(req) = req.Rc != nil && req.Rc.Type == 111 && req.Newfid != nil && len(req.Rc.Wqid) == len(req.Tc.Wname)
+//@ func (*Srv).walkPost(srv, req)
+//@   property C04 C06 C16
+//@   requires req != nil && req.Tc != nil && (req.Rc != nil && req.Rc.Type == 111 && req.Newfid != nil ==> req.Fid != nil && !held(req.Newfid))
+//@   ensures  [retain] walkdone(req) && req.Newfid.fid != req.Fid.fid ==> req.Newfid.refcount == wrap64s(old(req.Newfid.refcount) + 1)
+//@   ensures  [noretain] !(walkdone(req) && req.Newfid.fid != req.Fid.fid) && req.Newfid != nil ==> req.Newfid.refcount == old(req.Newfid.refcount)
+//@   ensures  [partial] !walkdone(req) && req.Newfid != nil ==> req.Newfid.Type == old(req.Newfid.Type)
+//@   ensures  [type] walkdone(req) ==> req.Newfid.Type == ite(len(req.Rc.Wqid) > 0, req.Rc.Wqid[len(req.Rc.Wqid)-1].Type, old(req.Fid.Type))
+//@   ensures  req.Fid != nil && req.Fid != req.Newfid ==> req.Fid.refcount == old(req.Fid.refcount) && req.Fid.Type == old(req.Fid.Type)
+//@   assigns  req.Newfid.refcount, req.Newfid.Type
+
+//@ func (*Srv).openPost(srv, req)
+//@   property C04 C05 C06
+//@   requires req != nil
+//@   ensures  req.Fid != nil ==> (req.Fid.opened <==> req.Rc != nil && req.Rc.Type == 113)
+//@   assigns  req.Fid.opened
+
+//@ func (*Srv).createPost(srv, req)
+//@   property C04 C05 C06
+//@   requires req != nil
+//@   ensures  req.Rc != nil && req.Rc.Type == 115 && req.Fid != nil ==> req.Fid.opened && req.Fid.Type == req.Rc.Qid.Type
+//@   ensures  !(req.Rc != nil && req.Rc.Type == 115) && req.Fid != nil ==> req.Fid.opened == old(req.Fid.opened) && req.Fid.Type == old(req.Fid.Type)
+//@   assigns  req.Fid.opened, req.Fid.Type
+
+//@ func (*Srv).readPost(srv, req)
+//@   property C04 C15 C06
+//@   requires req != nil && (req.Rc != nil && req.Rc.Type == 117 ==> req.Fid != nil)
+//@   ensures  req.Rc != nil && req.Rc.Type == 117 && req.Fid.Type & 128 != 0 ==> req.Fid.Diroffset == wrap64(old(req.Fid.Diroffset) + req.Rc.Count)
+//@   assigns  req.Fid.Diroffset
+
+//@ func (*Srv).clunkPost(srv, req)
+//@   property C04 C06
+//@   requires req != nil && (req.Fid != nil ==> !held(req.Fid) && req.Fid.Fconn != nil && !held(req.Fid.Fconn) && req.Fid.Fconn.Srv != nil)
+//@   ghost ndec int = 0
+//@   at call((*SrvFid).DecRef) ghost ndec := ndec + 1
+//@   at call((*SrvFid).DecRef) requires [fid] arg0 == old(req.Fid)
+//@   ensures  [clunked] (old(req.Rc) != nil && old(req.Rc.Type) == 121 && old(req.Fid) != nil) <==> ndec == 1
+//@   ensures  ndec <= 1
+
+//@ func (*Srv).removePost(srv, req)
+//@   property C04 C06
+//@   requires req != nil && (req.Fid != nil ==> !held(req.Fid) && req.Fid.Fconn != nil && !held(req.Fid.Fconn) && req.Fid.Fconn.Srv != nil)
+//@   ghost ndec int = 0
+//@   at call((*SrvFid).DecRef) ghost ndec := ndec + 1
+//@   at call((*SrvFid).DecRef) requires [fid] arg0 == old(req.Fid)
+//@   ensures  [removed] (old(req.Rc) != nil && old(req.Fid) != nil) <==> ndec == 1
+//@   ensures  ndec <= 1
